@@ -46,6 +46,8 @@ type Engine struct {
 	fpBusy        map[string]bool
 	immutable     map[string]bool // heap names of fields never written after construction (checked syntactically)
 	guards        map[string]string // field heap name -> name of the mutex field of the same struct that guards it
+	ghostHooks    map[string][]*Contract // "<function>|call:<callee>" / "<function>|delete" / "<function>|mapupdate" -> ghost assignments
+	globalConsts  map[string]string      // "<pkgpath>.<Name>" -> integer literal (package variables that are never reassigned)
 	trustedList   []string
 	contractFiles []string
 
@@ -76,7 +78,7 @@ var loadPatterns = []string{
 func NewEngine(repo string) (*Engine, error) {
 	e := &Engine{repo: repo, u: NewUniverse(), contracts: map[string]*Contract{}, loopContracts: map[string]*Contract{},
 		specFuns: map[string]*Contract{}, ghostVars: map[string]Sort{}, specSorts: map[string]Sort{}, specAccessors: map[string]accInfo{},
-		chanInvs: map[string]*Contract{}, callbacks: map[string]*Contract{}, callsites: map[string][]*Contract{}, impls: map[string]*Contract{}, footprints: map[string][]string{}, fpBusy: map[string]bool{}, immutable: map[string]bool{}, guards: map[string]string{}, heapSortHint: map[string]Sort{},
+		chanInvs: map[string]*Contract{}, callbacks: map[string]*Contract{}, callsites: map[string][]*Contract{}, impls: map[string]*Contract{}, footprints: map[string][]string{}, fpBusy: map[string]bool{}, immutable: map[string]bool{}, guards: map[string]string{}, ghostHooks: map[string][]*Contract{}, globalConsts: map[string]string{}, heapSortHint: map[string]Sort{},
 		modsMemo: map[*ssa.Function]map[string]bool{}, modsBusy: map[*ssa.Function]bool{}, globals: map[*ssa.Global]int{},
 		funcs: map[*ssa.Function]int{}, ifaceTypes: map[string]types.Type{}, cardSorts: map[Sort]bool{}, ufs: map[string]string{},
 		allFns: map[string]*ssa.Function{}, spkgs: map[string]*ssa.Package{}}
@@ -192,7 +194,23 @@ func (e *Engine) LoadContracts(specDir string) error {
 				return fmt.Errorf("%s:%d: unknown type %s", c.File, c.Line, tn)
 			}
 			key := TypeKey(t)
-			e.u.ghostFlds[key] = append(e.u.ghostFlds[key], ghostFieldDecl{strings.TrimPrefix(fnm, "#"), Sort(c.Sort)})
+			gs := Sort(c.Sort)
+			var gt types.Type
+			switch c.Sort {
+			case "Int", "int":
+				gs, gt = SInt, types.Typ[types.Int]
+			case "Bool", "bool":
+				gs, gt = SBool, types.Typ[types.Bool]
+			case "Str", "string":
+				gs, gt = SStr, types.Typ[types.String]
+			default:
+				if _, isSpec := e.specSorts[c.Sort]; !isSpec && !strings.HasPrefix(c.Sort, "(") {
+					if t2 := e.lookupTypeIn(c.Sort, c.Pkg); t2 != nil {
+						gs, gt = e.u.SortOf(t2), t2
+					}
+				}
+			}
+			e.u.ghostFlds[key] = append(e.u.ghostFlds[key], ghostFieldDecl{strings.TrimPrefix(fnm, "#"), gs, gt})
 		case "pred", "fun":
 			if _, dup := e.specFuns[c.Name]; dup {
 				return fmt.Errorf("%s:%d: duplicate spec function %s", c.File, c.Line, c.Name)
@@ -260,6 +278,42 @@ func (e *Engine) LoadContracts(specDir string) error {
 				callee = c.Name
 			}
 			e.callsites[caller+"|"+callee] = append(e.callsites[caller+"|"+callee], c)
+		case "global-const":
+			// global-const NAME VALUE : a package-level variable that is initialised once and never assigned again
+			f := strings.Fields(c.Name)
+			if len(f) != 2 {
+				return fmt.Errorf("%s:%d: global-const NAME VALUE", c.File, c.Line)
+			}
+			e.globalConsts[c.Pkg+"."+f[0]] = f[1]
+		case "ghost-after":
+			// ghost-after FUNC call CALLEE | ghost-after FUNC delete | ghost-after FUNC mapupdate
+			f := strings.Fields(c.Name)
+			if len(f) < 2 {
+				return fmt.Errorf("%s:%d: ghost-after needs FUNC and an event", c.File, c.Line)
+			}
+			fc := *c
+			fc.Name = f[0]
+			fk, err := e.resolveFuncName(&fc)
+			if err != nil {
+				return err
+			}
+			ev := f[1]
+			if ev == "callparam" && len(f) >= 3 {
+				ev = "callparam:" + f[2]
+			}
+			if ev == "call" {
+				if len(f) < 3 {
+					return fmt.Errorf("%s:%d: ghost-after FUNC call CALLEE", c.File, c.Line)
+				}
+				cc := *c
+				cc.Name = f[2]
+				ck, err := e.resolveFuncName(&cc)
+				if err != nil {
+					return err
+				}
+				ev = "call:" + ck
+			}
+			e.ghostHooks[fk+"|"+ev] = append(e.ghostHooks[fk+"|"+ev], c)
 		case "guarded":
 			// guarded T.f1, f2 by mtx
 			j := strings.Index(c.Name, " by ")
@@ -341,8 +395,25 @@ func (e *Engine) LoadContracts(specDir string) error {
 	return e.checkImmutable()
 }
 
-// checkImmutable: a field declared immutable may only be stored to in the function that allocated the object.
+// checkImmutable: a field declared immutable may only be stored to in the function that allocated the object;
+// a global-const is only stored to by its package initialiser.
 func (e *Engine) checkImmutable() error {
+	for _, fn := range e.allFns {
+		if fn.Name() == "init" || strings.HasPrefix(fn.Name(), "init#") {
+			continue
+		}
+		for _, b := range fn.Blocks {
+			for _, ins := range b.Instrs {
+				if st, ok := ins.(*ssa.Store); ok {
+					if g, ok := st.Addr.(*ssa.Global); ok && g.Pkg != nil {
+						if _, isConst := e.globalConsts[g.Pkg.Pkg.Path()+"."+g.Name()]; isConst {
+							return fmt.Errorf("%s: package variable %s is declared global-const but assigned in %s", e.fset.Position(st.Pos()), g.Name(), fn.String())
+						}
+					}
+				}
+			}
+		}
+	}
 	if len(e.immutable) == 0 {
 		return nil
 	}
@@ -622,6 +693,10 @@ func (e *Engine) funcRef(fn *ssa.Function) Term {
 // globalConst: package-level `var ErrX = errors.New(...)` sentinels are treated as distinct
 // non-nil constants (assumption A-GLOBALS: never reassigned).
 func (e *Engine) globalConst(un *Unit, g *ssa.Global) (Term, bool) {
+	if v, ok := e.globalConsts[g.Pkg.Pkg.Path()+"."+g.Name()]; ok {
+		un.note("package variable " + g.Name() + " is treated as the constant " + v + " (A-GLOBALS: initialised once, never reassigned; checked: no store to it exists)")
+		return IntLitS(v), true
+	}
 	pt := g.Type().Underlying().(*types.Pointer)
 	if types.Identical(pt.Elem(), types.Universe.Lookup("error").Type()) && strings.HasPrefix(g.Name(), "Err") {
 		id := e.globalRef(g)
@@ -640,7 +715,11 @@ func (e *Engine) globalByName(f *Frame, name string, st *State) (Val, bool) {
 	}
 	for _, sp := range e.spkgs {
 		if q == "" {
-			if f.fn.Pkg == sp || (f.fn.Parent() != nil && f.fn.Parent().Pkg == sp) {
+			if f.pkgPath != "" {
+				if sp.Pkg.Path() == f.pkgPath {
+					pkgs = append(pkgs, sp)
+				}
+			} else if f.fn != nil && (f.fn.Pkg == sp || (f.fn.Parent() != nil && f.fn.Parent().Pkg == sp)) {
 				pkgs = append(pkgs, sp)
 			}
 		} else if sp.Pkg.Name() == q {
